@@ -228,7 +228,8 @@ class P(Prop):
             return self.mk_case("deg-other", pts, 2, {"other": [inside() for _ in range(rng.choice([0, 1, 3]))]}, npts, factor)
         if c == 7:      # the step as a Python int
             mode = rng.choice([1, 2])
-            return self.mk_case("deg-int-step", pts, mode, {"num": rng.choice([1, 2, 3, 5, 10, 60])}, npts, factor, rng.random() < 0.3)
+            span = (t1 - t0) / 1000.0 if mode == 2 else float(self.len2d(pts))
+            return self.mk_case("deg-int-step", pts, mode, {"num": max(rng.choice([1, 2, 3, 5, 10, 60]), int(span / 500) + 1)}, npts, factor, rng.random() < 0.3)
         if c == 8:      # spatial mode with a step that is not a number: TypeError
             return self.mk_case("deg-spatial-list", pts, 1, {form: [inside()]}, npts, factor)
         if c == 9:      # both delta and npts / factor given: priority to delta
@@ -293,8 +294,12 @@ class P(Prop):
         mode = rng.choice([1, 2, 2])
         if mode == 1:
             d = {"num": self.rand_step_s(rng, pts) if lattice else max(0.5, rng.uniform(0.03, 1.1) * float(self.len2d(pts)))}
+            span = max(float(self.len2d(q)) for q in [pts] + others)
         else:
             d = rng.choice([{"num": self.rand_step_t(rng, pts)}, {"list": self.rand_instants(rng, pts, g)}, {"track": self.rand_instants(rng, pts, g)}])
+            span = max((q[-1][3] - q[0][3]) / 1000.0 for q in [pts] + others)
+        if "num" in d and span / d["num"] > 2000:      # the same step serves every track of the collection: keep the longest one affordable
+            d = {"num": float(Fraction(span / 2000).limit_denominator(8)) + 0.125}
         if c == 9 or not self.coll_floordiv_listed():
             return self.mk_case(pre + "coll", pts, mode, d, feat=feat, via="coll", others=others)
         return self.mk_case(pre + "collfloordiv", pts, 2, {"track": self.rand_instants(rng, pts, g)}, feat=feat, via="collfloordiv", others=others)
@@ -826,25 +831,33 @@ class P(Prop):
         ok = all(isinstance(v, int) for v in f) and wellformed(f)
         return [float(o.position.getX()), float(o.position.getY()), float(o.position.getZ()), ms_of_fields(f) if ok else None, f]
 
-    CALL_LIMIT_S = 1       # seconds of CPU time (not wall: immune to machine load) after which a call is reported as raising TimeoutError
+    CALL_LIMIT_S = 6        # seconds of CPU time (not wall: immune to machine load) a call may take ...
+    CALL_LIMIT_KB = 1 << 20  # ... and growth of the resident set (1 GiB) it may cause, before it is reported as raising TimeoutError
+    # (the heaviest generated call -- some 60 000 output observations -- needs about 2 s and a few tens of MB)
 
     def impl(self, case):
         if any(self.hangs(sc) for _, sc in self.subcases(case)):
             return {"err": "err:nonterm"}
         # the known infinite loop (non-positive step) is never entered; any other call that does not come back -- e.g. a changed
         # front end that turns an empty request into a zero step -- must not hang the check: it is interrupted and reported
-        import signal, threading
+        import signal, threading, resource
         if threading.current_thread() is not threading.main_thread():
             return self._impl(case)
+        rss0 = resource.getrusage(resource.RUSAGE_SELF).ru_maxrss
+        ticks = [0]
 
         def on_alarm(signum, frame):
-            raise TimeoutError("the call did not return within %d s of CPU time" % self.CALL_LIMIT_S)
+            ticks[0] += 1
+            if ticks[0] * 0.25 >= self.CALL_LIMIT_S:
+                raise TimeoutError("the call did not return within %d s of CPU time" % self.CALL_LIMIT_S)
+            if resource.getrusage(resource.RUSAGE_SELF).ru_maxrss - rss0 > self.CALL_LIMIT_KB:
+                raise TimeoutError("the call did not return and has allocated more than %d MB" % (self.CALL_LIMIT_KB >> 10))
         old = signal.signal(signal.SIGVTALRM, on_alarm)
-        signal.setitimer(signal.ITIMER_VIRTUAL, self.CALL_LIMIT_S)
+        signal.setitimer(signal.ITIMER_VIRTUAL, 0.25, 0.25)
         try:
             return self._impl(case)
         finally:
-            signal.setitimer(signal.ITIMER_VIRTUAL, 0)
+            signal.setitimer(signal.ITIMER_VIRTUAL, 0, 0)
             signal.signal(signal.SIGVTALRM, old)
 
     def _impl(self, case):
